@@ -38,32 +38,43 @@ func (P *Program) readOnly(fn *ssa.Function) bool {
 	return ok
 }
 
-// freshRoot: the address/value derives from an allocation made inside fn.
+// freshRoot: the address/value derives from an allocation made inside fn (or from a callee result that the
+// callee's contract declares fresh). Cycles through loop phis are resolved optimistically (coinductively):
+// a phi is fresh when all its non-cyclic inputs are.
+var freshCalleeHook func(c *ssa.CallCommon) bool
+
 func freshRoot(v ssa.Value, depth int) bool {
-	if depth > 20 {
-		return false
+	return freshRootV(v, map[ssa.Value]bool{})
+}
+
+func freshRootV(v ssa.Value, seen map[ssa.Value]bool) bool {
+	if seen[v] {
+		return true
 	}
+	seen[v] = true
 	switch x := v.(type) {
 	case *ssa.Alloc, *ssa.MakeMap, *ssa.MakeSlice:
 		return true
 	case *ssa.FieldAddr:
-		return freshRoot(x.X, depth+1)
+		return freshRootV(x.X, seen)
 	case *ssa.IndexAddr:
-		return freshRoot(x.X, depth+1)
+		return freshRootV(x.X, seen)
 	case *ssa.Slice:
-		return freshRoot(x.X, depth+1)
+		return freshRootV(x.X, seen)
+	case *ssa.ChangeType:
+		return freshRootV(x.X, seen)
 	case *ssa.Const:
 		return x.IsNil()
 	case *ssa.Call:
 		if b, ok := x.Call.Value.(*ssa.Builtin); ok && b.Name() == "append" {
-			return freshRoot(x.Call.Args[0], depth+1)
+			return freshRootV(x.Call.Args[0], seen)
+		}
+		if freshCalleeHook != nil && freshCalleeHook(&x.Call) {
+			return true
 		}
 	case *ssa.Phi:
 		for _, e := range x.Edges {
-			if e == v {
-				continue
-			}
-			if !freshRoot(e, depth+1) {
+			if !freshRootV(e, seen) {
 				return false
 			}
 		}
